@@ -93,7 +93,8 @@ Definition xstep (P : gparams) (x : xstate) (ev : xevent) : option xstate :=
   match ev with
   | XCvs outgoing cur vs counts res =>
       if is_nil (x_expect x) &&
-         (negb outgoing || same_set vs (successors (edges (x_g x)) cur)) &&
+         (* the successor set of a LIVE vertex is the model's; a vertex collapsed earlier in the loop is still visited with its stale set (oracle) *)
+         (negb outgoing || negb (mem cur (vert (x_g x))) || same_set vs (successors (edges (x_g x)) cur)) &&
          zs_eqb_ counts (map (cnt_lookup (x_cnt x)) vs) &&
          pairs_eqb res (collapse_vertex_set P (x_cnt x) vs)
       then let todo := filter (fun p => negb (mem (fst p) (x_removed x))) (sort_keys res) in
